@@ -1,5 +1,5 @@
 CHECK = {
-    "mode": "inpkg", "pkg": "kvcache", "files": ["c06_backend_test.go", "c06_model_test.go", "c06_test.go"],
+    "mode": "inpkg", "pkg": "kvcache", "files": ["c06_backend_test.go", "c06_model_test.go", "c06_test.go", "c06_encoder_test.go"],
     "level": "exploration",
     "engine": "kvmodel",
     "technique": "stateful property-based testing (rapid, shrinking) of kvcache.Causal / sliding-window Causal / "
@@ -18,15 +18,22 @@ CHECK = {
                   "NewWrapperCache, Cache interface, WrapperCache.SetLayerType); no unexported identifier is used and no "
                   "cache field is read. The backend is the harness's own (float32 storage, ggml's view/permute/copy "
                   "semantics, lazy execution on Compute, node budgets); the real ggml backend is not exercised. "
-                  "EncoderCache (position independent, mask nil, single sequence) and Causal.SetCausal (non-causal image "
-                  "tokens) are not part of the check. Two genuine defects are excluded by construction behind "
+                  "EncoderCache (position independent, mask nil, single sequence) has its own small target TestC06Encoder "
+                  "(machine over forward passes with 0-2 images, reservation passes and removals, alone and wrapped with a causal "
+                  "cache: Get returns per layer exactly the data of the most recent Put, EncoderCached() is true exactly while the "
+                  "position the image was stored at has not been removed, a reservation pass changes no metadata); Causal.SetCausal "
+                  "(non-causal image tokens) is not part of the check. Two genuine defects are excluded by construction behind "
                   "rec.Known: every history is cut at the first defrag that merges >= 2 cells into one move "
                   "(defrag-merged-move-swaps-cells), and a resume that CanResume grants although the model says part of "
                   "the window was evicted is turned into a full removal (swa-canresume-ignores-evicted-window-start).",
     "design_ref": "DESIGN.md section 3 C06",
     "targets": [{"name": "TestC06CausalHistory",
                  "quick": {"cases": 40000, "shards": 4, "soft_s": 35},
-                 "thorough": {"cases": 600000, "shards": 16, "soft_s": 360}}],
+                 "thorough": {"cases": 600000, "shards": 14, "soft_s": 360}},
+                # kvcache/encoder.go alone and inside NewWrapperCache(encoder, causal), as the cross-attention models use it
+                {"name": "TestC06Encoder",
+                 "quick": {"cases": 20000, "shards": 1, "soft_s": 20},
+                 "thorough": {"cases": 1000000, "shards": 2, "soft_s": 300}}],
     "floors": {"defrag_moved_verified": 0.03, "copy_diverge": 0.08, "remove_shift_verified": 0.15, "swa_evicted": 0.08,
                "cache_full": 0.05, "cache_full_then_verified": 0.04, "kind_wrapper": 0.08, "remove_err_shared": 0.01,
                "batch_multi_seq": 0.15, "permuted_v": 0.3, "cache_padding": 0.2, "mask_batch_padding": 0.15,
